@@ -165,10 +165,17 @@ def truthy(x):
     raise Undefined("truth of an object")
 
 
+class Unordered(list):
+    """several matches whose order the language does not fix (recursive descent, members of an object)"""
+
+
 def lookup(segs, root):
     cur = [root]
+    unordered = False
     for s in segs:
         nxt = []
+        if s[0] == 'd' or (s[0] in ('w', 'bw') and any(isinstance(v, dict) for v in cur)):
+            unordered = True
         for v in cur:
             if s[0] in ('k', 'b'):
                 if isinstance(v, dict) and s[1] in v:
@@ -192,7 +199,7 @@ def lookup(segs, root):
                     elif isinstance(x, list):
                         stack += x
         cur = nxt
-    return cur
+    return Unordered(cur) if unordered else cur
 
 
 def path_value(matches):
@@ -200,7 +207,7 @@ def path_value(matches):
         return MISSING
     if len(matches) == 1:
         return matches[0]
-    return list(matches)
+    return Unordered(matches) if isinstance(matches, Unordered) else list(matches)
 
 
 def scalar_eq(x, y):
@@ -222,6 +229,15 @@ def deep_eq(x, y):
     return type(x) == type(y) and x == y
 
 
+def sorted_json(l):
+    return sorted(l, key=lambda v: json.dumps(v, sort_keys=True))
+
+
+def all_same(x, y):
+    """both lists hold one and the same value in every position: equal in any order"""
+    return len(x) == len(y) and all(deep_eq(a, x[0]) for a in x) and all(deep_eq(b, x[0]) for b in y)
+
+
 def is_re(x):
     return isinstance(x, tuple) and len(x) == 2 and x[0] == 're'
 
@@ -236,6 +252,14 @@ def op_eq(x, y):
     if isinstance(x, dict) or isinstance(y, dict):
         raise Undefined("object operand")
     if isinstance(x, list) and isinstance(y, list):
+        if isinstance(x, Unordered) or isinstance(y, Unordered):
+            # equality of two match lists is element by element; where the language does not fix the order of
+            # the matches the answer is defined only if it is the same for every order
+            if all_same(x, y):
+                return True
+            if len(x) != len(y) or not deep_eq(sorted_json(x), sorted_json(y)):
+                return False
+            raise Undefined("order of the matches")
         return deep_eq(x, y)
     if isinstance(x, list):
         return any(scalar_eq(i, y) for i in x)
@@ -458,7 +482,7 @@ class Sem:
             m = lookup(sub, doc)
             if not m:
                 return False
-            return m[0] if len(m) == 1 else list(m)
+            return m[0] if len(m) == 1 else (m if isinstance(m, Unordered) else list(m))
         spec = self.xml_docs.get(text)
         if spec is None:
             raise Undefined("xml document unknown to the oracle")
@@ -1038,7 +1062,8 @@ def k_map(ctx, name, defs, fn, items, chunk=100, timeout=900, workers=8):
 # code of one case: bit 0 model <> implementation, bit 1 Coq specification (where it defines a truth value) <>
 # implementation, bit 2 limit of the model <> Propagate.Limit, bit 3 C12_limit instance fails, bit 4 the Coq
 # specification defines a truth value, bit 5 the tree violates shape_expr (hypothesis of C13), bit 6 it violates prepared_expr
-# (hypothesis of C14)
+# (hypothesis of C14), bit 7 the model's answer depends on the order in which object members are visited (Go map order:
+# the implementation's answer is not a function of the input; bits 0 and 1 are then not looked at)
 CHK = """
 Definition case_t := (tables * expr * jv * option bool * N)%type.
 Definition code (c : case_t) : nat :=
@@ -1052,14 +1077,21 @@ Definition code (c : case_t) : nat :=
   (if N.eqb (limit_model t e) lim || negb (limit_defined t e) then 0 else 4) +
   (if N.eqb (limit_model t e) (limit_spec t e) then 0 else 8) +
   (match sem (t_float t) (t_re t) (t_time t) (t_b64 t) (t_json t) (t_xml t) e r with Some _ => 16 | None => 0 end) +
-  (if shape_expr e then 0 else 32) + (if prepared_expr e then 0 else 64).
+  (if shape_expr e then 0 else 32) + (if prepared_expr e then 0 else 64) +
+  (if order_dependent t e r then 128 else 0).
 """
 
 
 
 
 def k_codes(ctx, name, items, chunk=100, timeout=900):
-    return k_map(ctx, name, CHK, "code", items, chunk=chunk, timeout=timeout)
+    codes = k_map(ctx, name, CHK, "code", items, chunk=chunk, timeout=timeout)
+    if codes is None:
+        return None
+    nd = sum(1 for c in codes if c & 128)
+    if nd:
+        ctx.cov["map_order_dependent_cases_not_compared"] = ctx.cov.get("map_order_dependent_cases_not_compared", 0) + nd
+    return [(c & ~3) if c & 128 else c for c in codes]
 
 
 def k_item(o):
